@@ -259,7 +259,7 @@ class Schema:
         return T("td", name=name)
 
     def new_dc(self, depth, root=False, prefix="f", base: str | None = None, tag=None, discr_field=None,
-               force_native=False, need_mixin=False, force_self=False) -> T:
+               force_native=False, need_mixin=False, force_self=False, wrapped_opts=False) -> T:
         """tag = (field name, literal): adds `field: Literal[lit] = lit`; discr_field: class-level
         Config.discriminator on that field (include_subtypes); force_native: one field of a type that some
         format dialect declares native"""
@@ -299,6 +299,11 @@ class Schema:
                 f[2] = "3"
             elif t.kind == "list" and r.random() < 0.2:
                 f[2] = "field(default_factory=list)"
+        if wrapped_opts and base is None and discr_field is None:
+            # required nullable fields under the other spellings of Optional (is_field_nullable must see through them)
+            fields.append([f"{prefix}{name.lower()}_wa", T("opt", T("int"), "annotated"), None])
+            fields.append([f"{prefix}{name.lower()}_wf", T("opt", T("str"), "final"), None])
+            fields.append([f"{prefix}{name.lower()}_wu", T("opt", T("date"), "union"), None])
         inherited = []
         bases = []
         if base is not None:
@@ -369,8 +374,26 @@ class Schema:
         r = self.rng
         if self.small:          # the grammar of the Coq model (Fmt.v)
             if depth <= 0 or r.random() < 0.42:
-                return T("any") if r.random() < 0.12 else T(r.choice(SMALL_LEAVES))
-            c = r.choice(["list", "dict", "opt", "opt", "dc", "dc", "child", "dunion"])
+                x = r.random()
+                if x < 0.12:
+                    return T("any")
+                if x < 0.24:
+                    return self.new_enum()
+                return T(r.choice(SMALL_LEAVES))
+            c = r.choice(["list", "dict", "opt", "opt", "dc", "dc", "child", "dunion", "tuplevar", "set", "frozenset", "nt", "td"])
+            if c == "tuplevar":
+                if r.random() < 0.5:
+                    ts = [self.gen_type(depth - 1) for _ in range(r.randint(1, 3))]
+                    name = self.fresh("Tup")
+                    self.classes[name] = {"kind": "fix", "fields": [(f"i{i}", t, None) for i, t in enumerate(ts)]}
+                    return T("tuplefix", ts, name=name)
+                return T("tuplevar", self.gen_type(depth - 1))
+            if c in ("set", "frozenset"):
+                return T(c, self.new_enum() if r.random() < 0.3 else T(r.choice(HASHABLE_LEAVES)))
+            if c == "nt":
+                return self.new_nt(depth)
+            if c == "td":
+                return self.new_td(depth)
             if c == "list":
                 return T("list", self.gen_type(depth - 1))
             if c == "dict":
@@ -1016,6 +1039,20 @@ def coq_ty(t: T, S: Schema) -> str:
         return f"(TOpt {coq_ty(t.args[0], S)})"
     if k == "dc":
         return f"(TData {_cs(t.name)})"
+    if k == "tuplevar":
+        return f"(TColl CTuple {coq_ty(t.args[0], S)})"
+    if k == "tuplefix":
+        return f"(TFix {_cs(t.name)})"
+    if k == "set":
+        return f"(TColl CSet {coq_ty(t.args[0], S)})"
+    if k == "frozenset":
+        return f"(TColl CFrozenSet {coq_ty(t.args[0], S)})"
+    if k == "enum":
+        return f"(TEnum {_cs(t.name)})"
+    if k == "nt":
+        return f"(TNamed {_cs(t.name)})"
+    if k == "td":
+        return f"(TTyped {_cs(t.name)})"
     if k in ("selfopt", "selflist"):
         inner = "TSelf" if (t.args and t.args[0]) else f"(TData {_cs(t.name)})"
         return f"(TOpt {inner})" if k == "selfopt" else f"(TList {inner})"
@@ -1032,10 +1069,24 @@ def coq_env(S: Schema) -> str:
     """class table: every generated dataclass with its (inherited, flattened) field declarations"""
     out = []
     for name, c in S.classes.items():
-        if c["kind"] != "dc":
+        if c["kind"] not in ("dc", "nt", "td", "fix"):
             continue
         out.append("(%s, [%s])" % (_cs(name), "; ".join(
-            "(%s, (%s, %s))" % (_cs(f), coq_ty(ft, S), "true" if d == "None" else "false") for f, ft, d in c["fields"])))
+            "(%s, (%s, %s))" % (_cs(f), coq_ty(ft, S), "true" if (d == "None" and c["kind"] == "dc") else "false")
+            for f, ft, d in c["fields"])))
+    return "[" + "; ".join(out) + "]"
+
+
+def coq_enums(S: Schema, mod) -> str:
+    out = []
+    for name, c in S.classes.items():
+        if c["kind"] != "enum":
+            continue
+        ms = []
+        for m in c["members"]:
+            val = getattr(mod, name)[m].value
+            ms.append(f"({_cs(m)}, " + (f"EvStr {_cs(val)}" if isinstance(val, str) else f"EvInt ({val})") + ")")
+        out.append(f"({_cs(name)}, [{'; '.join(ms)}])")
     return "[" + "; ".join(out) + "]"
 
 
@@ -1071,6 +1122,8 @@ def coq_pv(v, S: Schema, tab: list, unrepr: dict, utab: list, user: list) -> str
     """value-directed encoding (the model's values carry their own classes)"""
     if v is None:
         return "VNone"
+    if isinstance(v, enum.Enum):
+        return f"(VEnum {_cs(type(v).__name__)} {_cs(v.name)})"
     if isinstance(v, bool):
         return "(VBool %s)" % ("true" if v else "false")
     if isinstance(v, int):
@@ -1094,6 +1147,11 @@ def coq_pv(v, S: Schema, tab: list, unrepr: dict, utab: list, user: list) -> str
         return f"(VLeaf {kind} {_cs(p)})"
     if isinstance(v, list):
         return "(VList [%s])" % "; ".join(coq_pv(x, S, tab, unrepr, utab, user) for x in v)
+    if isinstance(v, tuple) and hasattr(v, "_fields"):
+        return "(VNT %s [%s])" % (_cs(type(v).__name__), "; ".join(coq_pv(x, S, tab, unrepr, utab, user) for x in v))
+    if isinstance(v, (tuple, set, frozenset)):
+        ck = "CTuple" if isinstance(v, tuple) else ("CFrozenSet" if isinstance(v, frozenset) else "CSet")
+        return "(VColl %s [%s])" % (ck, "; ".join(coq_pv(x, S, tab, unrepr, utab, user) for x in v))
     if isinstance(v, dict):
         return "(VDict [%s])" % "; ".join(f"({_cs(a)}, {coq_pv(x, S, tab, unrepr, utab, user)})" for a, x in v.items())
     if dataclasses.is_dataclass(v):
